@@ -376,12 +376,17 @@ def run(ctx):
         "a workload 'fits' when neither a size it reaches nor an explicit reserve() exceeds the capacity already held",
     ]
     ctx.gen(["rvec"])
+    ctx.log("translator done")
     ctx.lake_build(["Babylon.Properties.C12"])
+    ctx.log("lake build done")
     ctx.audit("Babylon.Properties.C12")
+    ctx.log("audit done")
     if not ctx.quick:
         ctx.leanchecker(["Babylon.RVec.Model", "Babylon.RVec.Str", "Babylon.Properties.C12"])
     drv = ctx.driver("drv_C12")
+    ctx.log("driver done")
     exe, log = build()
+    ctx.log("harness done")
     if exe is None:
         ctx.broke("correspondence", "harness/c12.cpp does not build against /repo", log[-800:])
         return
@@ -427,6 +432,7 @@ def run(ctx):
             if nontrivial(c):
                 distinct.add(sha(mode + "\n" + "\n".join(c)))
         dist["modes"][mode] = len(cases)
+        ctx.log("mode", mode, "cases", len(cases))
         diffs = ctx.eseq(exe, drv, cases, impl_args=[mode], model_args=[mode], compare=lambda a, b: same(a, b) and "!ORACLE" not in a)
         seen_keys = set()
         for (ci, li, op, a, b) in diffs:
